@@ -31,8 +31,8 @@ func (r *R) Intn(n int) int {
 	}
 	return r.IntN(n)
 }
-func (r *R) Bool() bool          { return r.IntN(2) == 0 }
-func (r *R) P(pct int) bool      { return r.IntN(100) < pct }
+func (r *R) Bool() bool           { return r.IntN(2) == 0 }
+func (r *R) P(pct int) bool       { return r.IntN(100) < pct }
 func (r *R) Range(lo, hi int) int { return lo + r.Intn(hi-lo+1) } // inclusive
 
 func Pick[T any](r *R, xs []T) T { return xs[r.Intn(len(xs))] }
